@@ -389,14 +389,20 @@ func runCapSession(c Case) Result {
 	events := c[3:]
 
 	s := startCapSession(cc)
-	defer func() {
+	closed := false
+	cleanup := func() {
+		if closed {
+			return
+		}
+		closed = true
 		s.c.Close()
 		select {
 		case <-s.done:
 		case <-time.After(20 * time.Second):
 		}
 		s.peer.Close()
-	}()
+	}
+	defer cleanup()
 
 	var obs strings.Builder
 	var oracle string
@@ -726,13 +732,34 @@ func runCapSession(c Case) Result {
 			break
 		}
 	}
+	// after the connection is gone HasCapability is false for every name (enabledCap itself
+	// is only cleared by the next connect)
+	cleanup()
+	dl := time.Now().Add(20 * time.Second)
+	for s.c.IsConnected() && time.Now().Before(dl) {
+		time.Sleep(200 * time.Microsecond)
+	}
+	obs.WriteString("|x=")
+	for _, p := range probes {
+		has, panicked := safeHasCap(s.c, p)
+		switch {
+		case panicked:
+			obs.WriteByte('!')
+		default:
+			obs.WriteString(B(has))
+			if has {
+				fail("hascap-disconnected", "HasCapability(%q)=true on a client that is not connected", p)
+			}
+		}
+	}
+
 	keys := make([]string, 0, len(sigs))
 	for k := range sigs {
 		keys = append(keys, k)
 	}
 	sort.Strings(keys)
-	if len(keys) > 4 {
-		keys = keys[:4]
+	if len(keys) > 6 {
+		keys = keys[:6]
 	}
 	return Result{Obs: obs.String(), Oracle: oracle, Sig: c[0] + "/" + strings.Join(keys, "+")}
 }
